@@ -29,6 +29,7 @@ func main() {
 	profile := fs.String("profile", "payload", "generation profile")
 	repo := fs.String("repo", "/repo", "checkout of nfpm under test (key files)")
 	nfpmBin := fs.String("nfpm", "", "built nfpm binary (CLI runs)")
+	behaviours := fs.String("behaviours", "", "behaviours exported by TLC, one JSON object per line (replayed on the real code)")
 	fs.Parse(os.Args[2:])
 	if *scratch == "" {
 		fmt.Fprintln(os.Stderr, "--scratch required")
@@ -59,7 +60,7 @@ func main() {
 	case "repro":
 		stats = famRepro(tr, *scratch, *seed, *tier, *nfpmBin)
 	case "fault":
-		stats = famFault(tr, *scratch, *seed, *tier, *workers, *repo, *nfpmBin)
+		stats = famFault(tr, *scratch, *seed, *tier, *workers, *repo, *nfpmBin, *behaviours)
 	case "config":
 		stats = famConfig(tr, *scratch, *seed, *tier, *workers, *profile)
 	case "pkg":
